@@ -46,6 +46,12 @@ mutual
 /-- a value of a `Ty` -/
 inductive Val
   | num (n : Nat) | bool (b : Bool) | bytes (b : Bytes) | obj (ss : Slots) | arr (vs : Vals)
+  /-- a raw `TLVElement` field, as the tree it decodes to (anonymous tag) -/
+  | raw (v : Value)
+  /-- the empty `TLVElement` (field not present) -/
+  | empty
+  /-- variant `i` of an enum with payload -/
+  | variant (i : Nat) (v : Val)
 deriving DecidableEq
 /-- a field value: `Option::None`, `Nullable` null, a value -/
 inductive Slot
@@ -67,12 +73,21 @@ inductive Ty
   | utf8 (cap : Option Nat)
   | struct (k : Kind) (fs : Fields)
   | array (cap : Option Nat) (elem : Ty)
+  /-- a raw `TLVElement<'a>` field: re-encoded under the field's tag, decoded lazily -/
+  | any
+  /-- an enum with one unnamed field per variant (`datatype = "struct"`): a structure holding exactly
+  the variant's payload under the variant's context tag -/
+  | choice (alts : Alts)
 /-- the fields of a derived structure, in declaration order: context tag, `Option`, `Nullable`, type -/
 inductive Fields
   | nil
   | cons (tag : Nat) (opt nullable : Bool) (ty : Ty) (rest : Fields)
   /-- a `Skippable<T>` field: always written; a missing element reads as `T::default()` = `dflt` -/
   | consSkip (tag : Nat) (ty : Ty) (dflt : Val) (rest : Fields)
+/-- the variants of an enum with payload: context tag and payload type -/
+inductive Alts
+  | nil
+  | cons (tag : Nat) (ty : Ty) (rest : Alts)
 end
 
 def Vals.length : Vals → Nat
@@ -90,6 +105,55 @@ def capOk (cap : Option Nat) (n : Nat) : Bool :=
 
 /-- the primitive `tw.u8` / `tw.u16|u32|u64` writes -/
 def uintPrim (w : Width) (n : Nat) : Prim := if w = .w1 then .uint .w1 n else Prim.mkUint n
+
+def _root_.Tlv.Value.tag : Value → Tag
+  | .leaf t _ => t
+  | .cont t _ _ => t
+
+/-- the same element under another tag (`elem.to_tlv(&tag, ..)`) -/
+def _root_.Tlv.Value.retag (t : Tag) : Value → Value
+  | .leaf _ p => .leaf t p
+  | .cont _ k cs => .cont t k cs
+
+def _root_.Tlv.Value.isNull : Value → Bool
+  | .leaf _ .null => true
+  | _ => false
+
+def tagWfb : Tag → Bool
+  | .anon => true
+  | .ctx n => decide (n < 2 ^ 8)
+  | .commonPrf16 n => decide (n < 2 ^ 16)
+  | .commonPrf32 n => decide (n < 2 ^ 32)
+  | .implPrf16 n => decide (n < 2 ^ 16)
+  | .implPrf32 n => decide (n < 2 ^ 32)
+  | .fullQual48 v p t => decide (v < 2 ^ 16) && decide (p < 2 ^ 16) && decide (t < 2 ^ 16)
+  | .fullQual64 v p t => decide (v < 2 ^ 16) && decide (p < 2 ^ 16) && decide (t < 2 ^ 32)
+
+def primWfb : Prim → Bool
+  | .sint w i => decide (-(2 ^ (8 * w.bytes - 1) : Nat) ≤ i) && decide (i < (2 ^ (8 * w.bytes - 1) : Nat))
+  | .uint w n => decide (n < 2 ^ (8 * w.bytes))
+  | .bool _ => true
+  | .f32 b => decide (b < 2 ^ 32)
+  | .f64 b => decide (b < 2 ^ 64)
+  | .utf8 w b => decide (b.length < 2 ^ (8 * w.bytes)) && validUtf8 b
+  | .str w b => decide (b.length < 2 ^ (8 * w.bytes))
+  | .null => true
+
+mutual
+/-- executable `Value.wf` -/
+def valueWfb : Value → Bool
+  | .leaf t p => tagWfb t && primWfb p
+  | .cont t _ cs => tagWfb t && valuesWfb cs
+def valuesWfb : Values → Bool
+  | .nil => true
+  | .cons v vs => valueWfb v && valuesWfb vs
+end
+
+/-- the `i`-th variant -/
+def Alts.get : Alts → Nat → Option (Nat × Ty)
+  | .nil, _ => none
+  | .cons tag ty _, 0 => some (tag, ty)
+  | .cons _ _ rest, i + 1 => rest.get i
 
 /-! ## derived `to_tlv`: `none` = the value does not inhabit the Rust type (or the writer refuses it) -/
 mutual
@@ -112,6 +176,16 @@ def encodeVal : Bool → Ty → Tag → Val → Option Value
       | some xs => some (.cont t .array (Values.ofList xs))
       | none => none
     else none
+  | nl, .any, t, .raw v =>
+    -- `TLVElement::to_tlv(tag)`; a `Nullable` raw element that is itself a TLV null would read back as null
+    if v.tag == .anon && valueWfb v && (!nl || !v.isNull) then some (v.retag t) else none
+  | _, .choice alts, t, .variant i v =>
+    match alts.get i with
+    | some (tag, ty) =>
+      match encodeVal false ty (.ctx tag) v with
+      | some x => some (.cont t .struct (.cons x .nil))
+      | none => none
+    | none => none
   | _, _, _, _ => none
 /-- the fields of a structure, each under its context tag -/
 def encodeFields : Fields → Slots → Option (List Value)
@@ -224,6 +298,30 @@ def decodeVal : Bool → Ty → Bytes → Res Val
     let seq ← containerOrEmpty e
     let vs ← decodeSeqWith (decodeVal false el) (elements seq)
     if capOk cap vs.length then pure (.arr vs) else .err .invalid
+  | _, .any, e =>
+    -- `TLVElement::from_tlv` is a clone; the element is observed through the tree decoder
+    -- (`tag()`, `value()`, `container()?.iter()`, as stream w does) under the anonymous tag
+    if e.isEmpty then pure .empty else do
+      let v ← decodeTree e.length e
+      pure (.raw (v.retag .anon))
+  | _, .choice alts, e => do
+    -- `element.r#struct()?.iter().next().ok_or(TLVTypeMismatch)??`, `try_ctx()?.ok_or(TLVTypeMismatch)?`
+    let seq ← structOf e
+    match (iterNext seq).1 with
+    | none => .err .mismatch
+    | some r => do
+      let el ← r
+      let o ← tryCtx el
+      let tag ← okOr o .mismatch
+      decodeAlts alts 0 tag el
+/-- `match tag { #(#tags => Self::#variant(T::from_tlv(&element)?),)* _ => Err(Invalid) }` -/
+def decodeAlts : Alts → Nat → Nat → Bytes → Res Val
+  | .nil, _, _, _ => .err .invalid
+  | .cons tg ty rest, i, tag, el =>
+    if tg = tag then do
+      let v ← decodeVal false ty el
+      pure (.variant i v)
+    else decodeAlts rest (i + 1) tag el
 /-- per field `T::from_tlv(&seq.find_ctx(tag)?)` for `T`, `Option<T>`, `Nullable<T>`, `Option<Nullable<T>>` -/
 def decodeFields (seq : Bytes) : Fields → Res Slots
   | .nil => pure .nil
@@ -282,6 +380,17 @@ def imStatusCode : Ty := .uint .w2 (.oneOf [0, 1, 0x7d, 0x7e, 0x7f, 0x80, 0x81, 
   0x8c, 0x8d, 0x8f, 0x92, 0x94, 0x9b, 0x9c, 0x9d, 0xc3, 0xc5, 0xc6, 0xc7, 0xc8, 0xc9, 0xca, 0xcb, 0xcc, 0xcd, 0xce,
   0xcf, 0xd0, 0xd1])
 
+def attrPath : Ty := ls [o 0 .bool, o 1 tU64, o 2 tU16, o 3 tU32, o 4 tU32, (5, true, true, tU16)]
+def cmdPath : Ty := ls [o 0 tU16, o 1 tU32, o 2 tU32]
+def status : Ty := st [r 0 imStatusCode, o 1 tU16]
+/-- `AttrStatus` / `AttrData` (raw `TLVElement` payload) / `AttrResp` (enum with payload) -/
+def attrStatus : Ty := st [r 0 attrPath, r 1 status]
+def attrData : Ty := st [o 0 tU32, r 1 attrPath, r 2 .any]
+def attrResp : Ty := .choice (.cons 0 attrStatus (.cons 1 attrData .nil))
+def cmdStatus : Ty := st [r 0 cmdPath, r 1 status, o 2 tU16]
+def cmdData : Ty := st [r 0 cmdPath, r 1 .any, o 2 tU16]
+def cmdResp : Ty := .choice (.cons 0 cmdData (.cons 1 cmdStatus .nil))
+
 def aclEntry : Ty := st [
   r 1 (.uint .w1 (.oneOf [1, 2, 3, 4, 5])),                                  -- Privilege ↔ AccessControlEntryPrivilegeEnum
   r 2 (.uint .w1 (.oneOf [1, 2, 3])),                                        -- AuthMode
@@ -325,15 +434,21 @@ def fabric : Ty := .struct .struct (
   .cons 14 false false (byteVec Consts.vvsLen) .nil)))))))))))))))
 
 def named : String → Option Ty
-  | "AttrPath" => some (ls [o 0 .bool, o 1 tU64, o 2 tU16, o 3 tU32, o 4 tU32, (5, true, true, tU16)])
-  | "CmdPath" => some (ls [o 0 tU16, o 1 tU32, o 2 tU32])
+  | "AttrPath" => some attrPath
+  | "CmdPath" => some cmdPath
   | "EventPath" => some (ls [o 0 tU64, o 1 tU16, o 2 tU32, o 3 tU32, o 4 .bool])
   | "ClusterPath" => some clusterPath
   | "EventFilter" => some (st [o 0 tU64, o 1 tU64])
   | "TimedReq" => some (st [r 0 tU16, o Consts.imRevisionTag tU8])
   | "Target" => some target
   | "DataVersionFilter" => some (st [r 0 clusterPath, r 1 tU32])
-  | "Status" => some (st [r 0 imStatusCode, o 1 tU16])
+  | "Status" => some status
+  | "AttrStatus" => some attrStatus
+  | "AttrData" => some attrData
+  | "AttrResp" => some attrResp
+  | "CmdStatus" => some cmdStatus
+  | "CmdData" => some cmdData
+  | "CmdResp" => some cmdResp
   | "StatusResp" => some (st [r 0 imStatusCode, o Consts.imRevisionTag tU8])
   | "SessionParameters" => some sessionParameters
   | "PBKDFParamReq" => some (st [r 1 tOct, r 2 tU16, r 3 tU16, r 4 .bool, o 5 sessionParameters])
@@ -379,6 +494,9 @@ def valStr : Val → String
   | .bytes b => "x" ++ hexOf b
   | .obj ss => "{" ++ slotsStr ss ++ " }"
   | .arr vs => "[" ++ valsStr vs ++ " ]"
+  | .raw v => "r:" ++ hexOf (encode v)
+  | .empty => "_"
+  | .variant i v => "( " ++ toString i ++ " " ++ valStr v ++ " )"
 def slotStr : Slot → String
   | .absent => "-"
   | .null => "n"
@@ -408,6 +526,21 @@ def parseSlotF : Nat → List String → Option (Slot × List String)
     else if tok = "[" then
       match parseValsF f rest with
       | some (vs, rest') => some (.val (.arr vs), rest')
+      | none => none
+    else if tok = "_" then some (.val .empty, rest)
+    else if tok = "(" then
+      match rest with
+      | itok :: rest1 =>
+        match itok.toNat?, parseSlotF f rest1 with
+        | some i, some (.val v, ")" :: rest2) => some (.val (.variant i v), rest2)
+        | _, _ => none
+      | [] => none
+    else if tok.startsWith "r:" then
+      match unhexL (tok.toList.drop 2) with
+      | some b =>
+        match decodeTree b.length b with
+        | .ok v => some (.val (.raw v), rest)
+        | _ => none
       | none => none
     else if tok.startsWith "x" then
       match unhexL (tok.toList.drop 1) with
